@@ -38,7 +38,7 @@ CLAIMED = {
  "C12": ("Inductive step over the real VerifyYouVersionState with ghost state from every invariant-satisfying header and every valid 3-version parameter table (all symbolic); builder ProcessYouVersionState subset of verifier; chains of 3/4 headers through the real chain-level VerifyYouVersionState2 with the ghost computed from the history (no invariant assumed); VersionForRoundWithParents reads the parameters of the header 8 rounds back without leaving the batch.",
          "Trusted: gosym, z3; parameter tables restricted to the stated validity predicate; numbers < 2^40. One open known finding (late approval).",
          "solver-based symbolic execution of go/ssa (SMT Int mode), inductive invariant step"),
- "C13": ("Structural half: compact/hex key encodings on symbolic nibble strings, decodeNode on every byte string up to the bound (+ shaped full nodes), in-memory insert/delete/get against an association-list model and a canonical rebuild (history independence before hashing), also after commit+reopen with hash references resolved through the real simplifyNode/expandNode pair (incl. prefix keys / branch values); the hasher embeds exactly the nodes shorter than 32 bytes; proofs from the real Prove verify with the real VerifyProof to the stored value or absence.",
+ "C13": ("Structural half: compact/hex key encodings on symbolic nibble strings, decodeNode on every byte string up to the bound (+ shaped full nodes), in-memory insert/delete/get against an association-list model and a canonical rebuild (history independence before hashing), also after commit+reopen with hash references resolved through the real simplifyNode/expandNode pair (incl. prefix keys / branch values); the hasher embeds exactly the nodes shorter than 32 bytes; proofs from the real Prove verify with the real VerifyProof to the stored value or absence; the real iterator returns exactly the surviving pairs, ascending.",
          "Trusted: gosym, z3; canonical nibble labelling (symmetry of the trie code under per-position relabelling). NOT covered: hashing/root value, byte-level proof encoding, the root value (keccak over reflection RLP), iterator order, the committer and disk format, node DB GC.",
          "solver-based symbolic execution of go/ssa (bv)"),
  "C14": ("Primitive layer: every byte string of the stated lengths through rlp.Split*/CountValues/readKind/readSize and Stream.Bytes/Uint/Raw/List; accept => canonical against an independent Yellow-Paper encoder; encoder heads for every 64-bit size; allocation bounded by input; the reflect-facing leaf decoders/writers (big.Int, uint64, []byte, string, bool) and the rlp:\"nil\" optional-pointer decoder on a minimal reflect model; the consensus layer's entry points accept exactly one RLP value (codec entry points by contract over the real rlp.Split).",
